@@ -15,6 +15,10 @@ Two further axes (each on the otherwise valid layouts, one position per case):
     same file, without setting it, or onto a value given on the command line before the file); the appended spellings
     are again relative to the file they are written in, and one of them optionally exists only in that file's
     directory / only in the working directory / nowhere;
+    the appended value is written as a list of items or as ONE single item (`files+: item`);
+  * `exit` - the same layouts on parsers built with DEFAULT settings (exit_on_error=True): a failing parse ends in
+    SystemExit (status 2) instead of ArgumentError; the caller catches it and the working directory / context variable
+    must be what they were;
   * `entry` - on the parse_path channel the entry file is handed over not as a string but as an object: a Path created
     while the process was in another directory, a Path created with cwd=<another directory>, or an os.PathLike.
 
@@ -39,6 +43,15 @@ ELSEWHERE = "X/c"  # the directory a Path object of the entry file remembers (ne
 APPEND_MODES = ["after-set", "only", "onto-argv"]
 APPEND_KINDS = ["common", "own", "missing"]  # + "only:<dir>"
 APPEND_MECH = "key+append"
+
+
+def _app_mech(case):
+    """Signature component of a deviation on appended items: the value shape is named when it is not the list."""
+    app = case.get("app") or []
+    return APPEND_MECH + (":single-item" if len(app) > 3 and app[3] == "scalar" else "")
+
+
+APPEND_SHAPES = ["list", "scalar"]  # `files+: [a, b]` | `files+: a` (one single item, not wrapped in a list)
 
 
 def tag(d):
@@ -119,7 +132,24 @@ def appends(tier, case):
                 kinds = ["own", "only:" + tag(CWD)]
             for kind in kinds:
                 out.append([level, mode, kind])
+                # the appended value written as one single item instead of a list (4th element); quick: the single
+                # item is the one that exists only next to the file (a wrong base shows as a false reject) in all three
+                # modes; the everywhere-existing item and the items of other directories are left to thorough
+                if tier != "quick" or kind == "own":
+                    out.append([level, mode, kind, "scalar"])
     return out
+
+
+def exit_axis(tier, flavour, channel, refs):
+    """Which layouts are repeated on parsers built with default settings (exit_on_error=True).
+    The exit is raised by the entry call, whatever the nesting mechanism below it: quick explores all five entry
+    channels with one mechanism, uniformly spelled references (like the appends) and chains of up to 2 files; thorough
+    every reference spelling and depth with that mechanism and the other mechanisms of the matrix with uniformly
+    spelled references."""
+    uniform = len(set(refs)) == 1
+    if tier == "quick":
+        return flavour == "parser" and uniform and len(refs) <= 2
+    return flavour == "parser" or uniform
 
 
 def depths(flavour, channel):
@@ -144,6 +174,8 @@ def nest_cases(tier):
                     for alt in alternatives(tier, depth, fl):
                         case = {"env": "nest", "flavour": fl, "channel": ch, "dirs": list(dirs), "refs": refs, "alt": alt}
                         out.append(case)
+                        if exit_axis(tier, fl, ch, refs):
+                            out.append(dict(case, exit=True))
                         if ch == "parse_path" and fl == "parser":
                             # the entry file handed over as an object that remembers another directory
                             # (quick: a Path created with cwd= is the same object as one created elsewhere - left to
@@ -151,7 +183,7 @@ def nest_cases(tier):
                             out += [dict(case, entry=form) for form in ENTRY_FORMS[1:] if not (tier == "quick" and form == "path-cwdarg")]
                         if alt is None:
                             out += [dict(case, app=app) for app in appends(tier, case)]
-    out.sort(key=lambda c: (len(c["dirs"]), c["alt"] is not None, "app" in c, "entry" in c, json.dumps(c, sort_keys=True)))
+    out.sort(key=lambda c: (len(c["dirs"]), c["alt"] is not None, "app" in c, "entry" in c, "exit" in c, json.dumps(c, sort_keys=True)))
     return out
 
 
@@ -159,7 +191,7 @@ def nest_cases(tier):
 # building one case
 
 
-def _parser(J, flavour, default_files=None):
+def _parser(J, flavour, default_files=None, exit_on_error=False):
     from typing import List, Optional
 
     from jsonargparse.typing import Path_dw, Path_fc, Path_fr
@@ -172,7 +204,7 @@ def _parser(J, flavour, default_files=None):
         if flavour == "listfile":
             p.add_argument("--lst", type=List[Path_fr], enable_path=True)
 
-    kw = {"exit_on_error": False}
+    kw = {} if exit_on_error else {"exit_on_error": False}  # {}: every parser of the case built with default settings
     top = J.ArgumentParser(default_config_files=default_files, **kw) if default_files else J.ArgumentParser(**kw)
     top.add_argument("--config", action="config")
     keys(top)
@@ -226,12 +258,15 @@ def plan(case, root):
         lv["pre"] = []  # [spelling, directory] of list items that precede the file's own (given on the command line)
         lv["appended"] = 0  # how many trailing items of `files` were written with `files+`
         if app is not None and app[0] == i + 1 and not is_list:
-            _, mode, kind = app
+            _, mode, kind = app[:3]
+            scalar = len(app) > 3 and app[3] == "scalar"
             extra = {"common": [], "own": [f"only_{tag(d)}.txt"], "missing": ["missing.txt"]}.get(kind)
             if extra is None:
                 extra = [f"only_{kind[5:]}.txt"]
             added = ["sub/deep.txt"] + extra
-            lv["write"]["files+"] = added
+            if scalar:
+                added = added[-1:]  # the item the kind is about ("common": the one that exists in every directory)
+            lv["write"]["files+"] = added[0] if scalar else added
             lv["appended"] = len(added)
             if mode == "after-set":
                 lv["values"]["files"] = lv["values"]["files"] + added
@@ -374,7 +409,7 @@ def _rejects_valid_signature(case, levels):
     classified by how the list file is referenced (that is what decides whether it is found)."""
     fl, ch = case["flavour"], case["channel"]
     if case.get("app"):
-        return f"nest:rejects-valid:{APPEND_MECH}"
+        return f"nest:rejects-valid:{_app_mech(case)}"
     if fl == "listfile":
         last = len(levels) - 1
         from_dir = levels[last - 1]["dir"] if last > 0 else CWD
@@ -411,10 +446,11 @@ def run_nest(case, root):
         os.chdir(cwd_dir)
         before = os.getcwd()
         ctx_before = ctxvar.get() if ctxvar is not None else None
+        eoe = bool(case.get("exit"))
         if ch == "default":
-            parser = _parser(J, fl, default_files=[entry_ref])
+            parser = _parser(J, fl, default_files=[entry_ref], exit_on_error=eoe)
         else:
-            parser = _parser(J, fl)
+            parser = _parser(J, fl, exit_on_error=eoe)
         # an argument that FOLLOWS --config on the command line is relative to the working directory again
         trailing = ["--slot", f"only_{tag(CWD)}.txt"] if ch == "config" and case["alt"] is None else []
         # a list value given on the command line BEFORE the file (the file then appends to it)
@@ -436,21 +472,24 @@ def run_nest(case, root):
         ctx_after = ctxvar.get() if ctxvar is not None else None
         mech1 = ch if ch != "subarg" else fl
         failed = o["kind"] != "ok"
+        # a parser built with default settings reports a failure by exiting with status 2 (the caller may catch that)
+        clean_exit = eoe and o["kind"] == "exit" and o.get("code") == 2
+        when = "after-system-exit" if o["kind"] == "exit" else "after-failure" if failed else "after-success"
         if after != before:
-            devs.append((f"nest:cwd-not-restored:{'after-failure' if failed else 'after-success'}", f"cwd before {before!r}, after {after!r}"))
+            devs.append((f"nest:cwd-not-restored:{when}", f"cwd before {before!r}, after {after!r}"))
         if ctx_after != ctx_before:
-            devs.append((f"nest:context-not-restored:{'after-failure' if failed else 'after-success'}", f"current_path_dir {ctx_before!r} -> {ctx_after!r}"))
-        if o["kind"] in ("escape", "timeout", "exit"):
+            devs.append((f"nest:context-not-restored:{when}", f"current_path_dir {ctx_before!r} -> {ctx_after!r}"))
+        if o["kind"] in ("escape", "timeout", "exit") and not clean_exit:
             devs.append((f"nest:escape:{o.get('type', o['kind'])}:{mech1 if len(levels) == 1 else fl}", str(o.get("message", o))[:300]))
-        elif o["kind"] == "ArgumentError":
+        elif o["kind"] == "ArgumentError" or clean_exit:
             if want_ok:
-                devs.append((_rejects_valid_signature(case, levels), o["message"][:400]))
+                devs.append((_rejects_valid_signature(case, levels), str(o.get("message") or o.get("stderr"))[-400:]))
         else:
             if not want_ok:
                 # attributed to the hop that leads to the (single) invalid level: entry channel or nesting mechanism;
                 # an invalid appended item to the append mechanism
                 bad_level = case["alt"][0] if case["alt"] else 1
-                mech_bad = APPEND_MECH if case.get("app") else (mech1 if bad_level == 1 else fl)
+                mech_bad = _app_mech(case) if case.get("app") else (mech1 if bad_level == 1 else fl)
                 devs.append((f"nest:accepts-invalid:{mech_bad}", "; ".join(reasons)))
             cfg = o["value"]
             if trailing:
@@ -483,9 +522,9 @@ def run_nest(case, root):
                         want += [[sp, base, mech] for sp in val]
                         if key == "files":
                             for item in want[len(want) - lv["appended"] :]:
-                                item[2] = APPEND_MECH
+                                item[2] = _app_mech(case)
                         if not isinstance(got, list) or len(got) != len(want):
-                            m = APPEND_MECH if key == "files" and lv["appended"] else mech
+                            m = _app_mech(case) if key == "files" and lv["appended"] else mech
                             devs.append((f"nest:wrong-value:{m}", f"{key}={got!r}, expected {[w[0] for w in want]!r}"))
                             continue
                         for g, (sp, b, m) in zip(got, want):
@@ -523,13 +562,23 @@ class _Boom(Exception):
     pass
 
 
+class _BaseBoom(BaseException):
+    """An exit that is not an Exception subclass (like KeyboardInterrupt / GeneratorExit / SystemExit)."""
+
+
+# how the innermost body is left: returns | raises an Exception | raises SystemExit (what a parser built with default
+# settings does on error) | raises another BaseException that is not an Exception
+CTX_EXITS = [False, True, "exit", "base"]
+_BODY_EXC = {True: _Boom, "exit": SystemExit, "base": _BaseBoom}
+
+
 def ctx_cases(tier):
-    """Every sequence of up to 3 nested contexts over the step alphabet x {body returns, body raises}."""
+    """Every sequence of up to 3 nested contexts over the step alphabet x every way the body is left (CTX_EXITS)."""
     depth = 3
     out = []
     for n in range(1, depth + 1):
         for steps in itertools.product(CTX_STEPS, repeat=n):
-            for boom in (False, True):
+            for boom in CTX_EXITS:
                 out.append({"env": "ctx", "steps": list(steps), "raise": boom})
     return out
 
@@ -577,7 +626,7 @@ def run_ctx(case, root):
             if os.path.realpath(probe.absolute) != os.path.join(cur, "probe.txt") or probe.relative != "probe.txt":
                 devs.append((f"ctx:wrong-absolute-inside:{steps[-1]}", f"{probe.absolute!r}, model directory {cur!r}"))
             if case["raise"]:
-                raise _Boom()
+                raise _BODY_EXC[case["raise"]]()
             return
         arg, mode, want, *other_base = _ctx_step(root, steps[i], cur)
         want = os.path.realpath(want)
@@ -597,7 +646,7 @@ def run_ctx(case, root):
                 devs.append((f"ctx:rejects-valid:{steps[i]}", f"{arg!r} in {cur!r}"))
             info["invalid"] = True
             if case["raise"]:
-                raise _Boom()
+                raise _BODY_EXC[case["raise"]]()
             return
         if not valid:
             devs.append((f"ctx:accepts-invalid:{steps[i]}", f"{arg!r} in {cur!r}"))
@@ -621,17 +670,18 @@ def run_ctx(case, root):
         try:
             descend(0, start)
             raised = None
-        except _Boom:
+        except (_Boom, _BaseBoom, SystemExit):
             raised = "boom"
         except Exception as ex:  # noqa: BLE001
             raised = type(ex).__name__
             devs.append((f"ctx:escape:{raised}", str(ex)[:300]))
         if bool(case["raise"]) != (raised == "boom") and raised in (None, "boom"):
             devs.append(("ctx:exception-swallowed-or-invented", f"body raises={case['raise']}, observed {raised}"))
+        when = "after-exit" if not raised else "after-exception" if case["raise"] is True else "after-base-exception"
         if here() != start:
-            devs.append((f"ctx:cwd-not-restored:{'after-exception' if raised else 'after-exit'}", f"cwd {here()!r}, started in {start!r}"))
+            devs.append((f"ctx:cwd-not-restored:{when}", f"cwd {here()!r}, started in {start!r}"))
         if ctxvar is not None and ctxvar.get() is not None:
-            devs.append((f"ctx:context-not-restored:{'after-exception' if raised else 'after-exit'}", repr(ctxvar.get())))
+            devs.append((f"ctx:context-not-restored:{when}", repr(ctxvar.get())))
     finally:
         os.chdir(saved)
         if ctxvar is not None and ctxvar.get() is not None:
